@@ -60,6 +60,9 @@ ASSUMPTIONS = [
     "and keyed lists are driven on the real code and judged by the model-independent oracle only: compared, not proved "
     "(<Show> corresponds to the memoised conditional of the Coq model); Resource (serialising) and Transition inside "
     "<For> rows are not generated",
+    "a boundary that is mounted by a step (a <Show> / <For> / ErrorBoundary switching to it) whose writes also re-trigger a "
+    "resource it reads, and a Transition that was at a point where both children and fallback are accepted while the load "
+    "continues, may show children or fallback until that load ends; "
     "a Transition created (by a re-running ErrorBoundary closure) in the step whose writes re-trigger a resource it reads "
     "may show its children or its fallback until that load ends: whether it was built before or after the refetch task "
     "marked the resource as loading is decided by the schedule",
